@@ -30,6 +30,53 @@ def main():
                 C.log("generator %s failed:\n%s" % (tool, (out + e)[-2000:]))
             else:
                 C.write_if_changed(os.path.join(C.COQ, "gen", outfile), out)
+    # C11 / C12: generators that need their own overlay / x-tools module (helpers live in the check modules)
+    try:
+        import json as _json, tempfile, shutil
+        from checks import c11 as _c11, c12 as _c12
+        ov = _c11.make_overlay()
+        g11, e1 = C.go_build("c11gen", overlay=ov)
+        if g11:
+            rc, out, e = C.run([g11, _c11.repo_dir()], timeout=300)
+            if rc == 0 and "Definition heap" in out:
+                C.write_if_changed(os.path.join(C.COQ, "gen", "GenGlobalsGraph.v"), out)
+            else:
+                ok = False
+                C.log("c11gen failed: " + (out + e)[-1500:])
+        else:
+            ok = False
+            C.log("go build c11gen failed: " + e1[-1500:])
+        C.go_build("c11obs", overlay=ov)
+        C.go_build("c12obs", overlay=ov)
+        _c12.sync_xt_mod()
+        g05, e5 = _c12.build_xt("c05gen")
+        if g05:
+            rc, out, e = C.run([g05, _c12.XT], env=dict(C.GOENV), timeout=600)
+            if rc == 0 and "gen_map_range_sites" in out:
+                C.write_if_changed(os.path.join(C.COQ, "gen", "GenMapRangeSites.v"), out)
+            else:
+                ok = False
+                C.log("c05gen failed: " + (out + e)[-1500:])
+        else:
+            ok = False
+            C.log("go build c05gen failed: " + (e5 or "")[-1500:])
+        g12, e2 = _c12.build_xt("c12gen")
+        if g12:
+            d = tempfile.mkdtemp(prefix="c12gen-", dir=C.WORK)
+            cf, jf = os.path.join(d, "g.v"), os.path.join(d, "g.json")
+            rc, out, e = C.run([g12, "both", _c12.XT, cf, jf], env=dict(C.GOENV), timeout=600)
+            if rc == 0 and os.path.exists(cf):
+                C.write_if_changed(os.path.join(C.COQ, "gen", "GenOsCallGraph.v"), open(cf).read())
+            else:
+                ok = False
+                C.log("c12gen failed: " + (out + e)[-1500:])
+            shutil.rmtree(d, ignore_errors=True)
+        else:
+            ok = False
+            C.log("go build c12gen failed: " + (e2 or "")[-1500:])
+    except Exception as ex:     # the checks regenerate these themselves; setup only pre-builds
+        ok = False
+        C.log("C11/C12 pre-generation failed: %r" % (ex,))
     # Coq: full .vo build of every model, proof and property file
     C.coq_project()
     good, log = C.coq_make([], timeout=7000)
@@ -56,7 +103,7 @@ def main():
             if not out:
                 ok = False
                 C.log("go build %s (overlay) failed:\n%s" % (g, (err or err2)[-3000:]))
-        for name, ev, dv in need.get("extract", []):
+        for name, ev, dv in need.get("extract", []) :
             if name in seen:
                 continue
             seen.add(name)
